@@ -259,11 +259,24 @@ def junk_cases():
     return out
 
 
+def corpus_docs():
+    """Minimised past failures of the accessor family (replayed first on every run)."""
+    import glob, json, os
+    from .core import VERIF
+    out = []
+    for path in sorted(glob.glob(os.path.join(VERIF, 'corpus', '*.json'))):
+        with open(path, encoding='utf-8') as f:
+            d = json.load(f)
+        if 'access_ro_text' in d:
+            out.append(('corpus:' + os.path.basename(path), TJ.parse(d['access_ro_text'])))
+    return out
+
+
 def evaluate(pid, tier, seed):
     from . import impl, lean
     oc = Outcome(pid)
     rng = random.Random(seed * 977 + 3)
-    cases = []
+    cases = corpus_docs()
     cases += time_cases(tier, rng)
     if pid in ('C15', 'C17'):
         cases += script_cases(tier, rng)
